@@ -2,6 +2,9 @@ use crate::line::Line;
 use crate::parser::Parser;
 use crate::terminal::{Cursor, Terminal};
 
+#[cfg(avt_verif)]
+mod verif;
+
 #[derive(Debug)]
 pub struct Vt {
     parser: Parser,
